@@ -52,7 +52,7 @@ PROBES = [
     ("exports", {"p.mac": "x == 1\n\t.word y\n", "q.mac": "\t.byte x\n\t.even\nx = 5\ny::\tnop\n"}, ["p.mac", "q.mac"]),
     ("blkb-negative", {"p.mac": "\tnop\n\t.blkb 0 - 1\n\tnop\n"}, ["p.mac"]),
 ]
-CLI_PROBE = ("cli", {"p.mac": "\tmake_bin\n\tmake_raw \"out/r.raw\"\nv = -5\nl:\t.word l, v & 177777\n\t.word\n", "out/": None}, ["p.mac", "--lst", "--report-format=bare"])
+CLI_PROBE = ("cli", {"p.mac": "\tmake_bin\n\tmake_raw \"out/r.raw\"\nv = -5\ntie3 = 7\ntie1 = 7\nzz = 7\ntie2 = 7\naa = 7\nl:\t.word l, v & 177777\nm:\nn:\t.word\n", "out/": None}, ["p.mac", "--lst", "--report-format=bare"])
 
 
 def write_tree(tree):
